@@ -66,6 +66,18 @@ func typeString(t types.Type) string {
 // repository package paths are shortened to their module-relative form.
 func funcFullName(f *ssa.Function) string {
 	short := func(s string) string { return strings.ReplaceAll(s, modPath+"/", "") }
+	// a renamed reference function keeps its reference name for the rules (load.go indexRenames)
+	if theProg != nil && f.Parent() == nil && len(theProg.renamedFrom) > 0 {
+		if old, ok := theProg.renamedFrom[theProg.FnName(f)]; ok {
+			oldName := old[strings.LastIndex(old, ".")+1:]
+			if recv := f.Signature.Recv(); recv != nil {
+				return short("(" + typeString(recv.Type()) + ")." + oldName)
+			}
+			if f.Pkg != nil {
+				return short(f.Pkg.Pkg.Path() + "." + oldName)
+			}
+		}
+	}
 	if f.Parent() != nil {
 		return funcFullName(f.Parent()) + "$" + f.Name()[strings.LastIndex(f.Name(), "$")+1:]
 	}
